@@ -355,6 +355,13 @@ def analyse_function(relpath, fn, loader, iterable_params):
                                 findings.append(Finding("C44", fn.name, f"closure-writes-factory/{t.id}",
                                                         f"`{t.id}` (bound in {fn.name}(...), i.e. once per operator object) is assigned by the closure "
                                                         f"{sc.qual()} that the operator runs later: state leaks between applications / subscriptions", n.lineno))
+                elif isinstance(n, ast.Name) and isinstance(n.ctx, ast.Load):
+                    # ... or if it hands out a mutable object / subject the factory allocated (a subject factory returning one subject)
+                    tg = sc.resolve(n.id)
+                    if tg is root and root.bound.get(n.id) in ("subject", "mutable", "oneshot"):
+                        findings.append(Finding("C44", fn.name, f"closure-shares-factory-object/{n.id}",
+                                                f"`{n.id}` ({root.bound.get(n.id)}, allocated once per call of {fn.name}(...)) is used by the closure "
+                                                f"{sc.qual()} that the operator runs once per application / subscription: all of them share it", n.lineno))
     uniq = {}
     for f in findings:
         uniq.setdefault((f.prop, f.label), f)
